@@ -4,6 +4,7 @@ import (
 	"fmt"
 
 	"github.com/hslam/rpc"
+	vs "verif/shim/vsync"
 )
 
 // SS is the argument type of stream handlers: the library connects the stream through Connect.
@@ -35,6 +36,16 @@ func (a *StreamSvc) Push(s *SS) error {
 			msg := []byte{0xDD}
 			w.streamEnd = append(w.streamEnd, [3]string{errStr(err), errStr(s.st.WriteMessage(&msg)), errStr(s.st.ReadMessage(nil, &again))})
 			return err
+		}
+		if w.streamHold {
+			// the handler is slow: later messages pile up in the stream's receive queue
+			vs.Block("stream handler held", func() bool { return !w.streamHold })
+		}
+		if w.badPush && len(in) > 0 && in[0] == 0xBD {
+			// answer with a message the body codec refuses (see rejectCodec): that write fails,
+			// the stream goes on
+			bad := []byte{0xEE, 0xEE, 1}
+			w.badPushErr = errStr(s.st.WriteMessage(&bad))
 		}
 		if w.keep {
 			w.kept = append(w.kept, in)
